@@ -39,12 +39,14 @@ class ModeBasis(object):
             is_list = isinstance(transformation_matrix, (list, tuple))
 
         if sparse:
+            # Always store a sparse *matrix*: the indexing below relies on 2D results, whereas
+            # SciPy sparse arrays (csc_array, ...) return 1D results for a scalar index.
             if is_list:
-                self._modes = scipy.sparse.vstack(transformation_matrix, format='csr')
+                self._modes = scipy.sparse.csr_matrix(scipy.sparse.vstack(transformation_matrix, format='csr'))
                 self._transformation_matrix = self._modes.T.tocsc()
             else:
-                self._modes = transformation_matrix.T.tocsr()
-                self._transformation_matrix = transformation_matrix.tocsc()
+                self._modes = scipy.sparse.csr_matrix(transformation_matrix.T)
+                self._transformation_matrix = scipy.sparse.csc_matrix(transformation_matrix)
         else:
             if is_list:
                 self._transformation_matrix = np.asarray(np.stack(transformation_matrix, axis=-1))
